@@ -60,6 +60,23 @@ func contexts(t testing.TB) []*lib.Ctx {
 			return
 		}
 		ctxAll = append(ctxAll, hc)
+		// the same definitions, the parent applications loaded after their children
+		hl1, err := refdict.Parse("hier-children", lib.HierLateXML1)
+		if err != nil {
+			ctxErr = err
+			return
+		}
+		hl2, err := refdict.Parse("hier-parents", lib.HierLateXML2)
+		if err != nil {
+			ctxErr = err
+			return
+		}
+		hlc, err := lib.Load("base+hier-parents-loaded-late", fs[0], hl1, hl2)
+		if err != nil {
+			ctxErr = err
+			return
+		}
+		ctxAll = append(ctxAll, hlc)
 		gf, err := refdict.Parse("gen", lib.GenXML)
 		if err != nil {
 			ctxErr = err
